@@ -90,6 +90,10 @@ pair geomname1=fs geomname2=pg
 exclude bodyname1=p bodyname2=q
 numeric name=n1 size=3 data=1,2,3
 text name=tx1 data=hello
+hfield name=terrain nrow=3 ncol=4 size=1,1,0.5,0.1 userdata=0,0.1,0.2,0.3,0.4,0.5,0.6,0.7,0.8,0.9,1,0.5
+geom name=ground type=1 hfieldname=terrain pos=-4,0,0
+tuple name=tp1 objtype=1,1 objname=f,p objprm=0,1
+skin name=sk body=p
 key name=k0 qpos=0,0,1,1,0,0,0,0.1,1,0,0,0 mpos=2,0,1 mquat=1,0,0,0""",
     "tiny": """size memory=65536
 body name=b pos=0,0,1
@@ -126,7 +130,17 @@ REFS = [
     ("name_tendonadr", "nnames", None, False), ("name_actuatoradr", "nnames", None, False),
     ("name_sensoradr", "nnames", None, False), ("name_numericadr", "nnames", None, False), ("name_textadr", "nnames", None, False),
     ("name_keyadr", "nnames", None, False), ("mesh_pathadr", "npaths", None, True), ("tex_pathadr", "npaths", None, True),
+    ("tuple_adr", "ntupledata", "tuple_size", False), ("name_tupleadr", "nnames", None, False),
+    ("name_hfieldadr", "nnames", None, False), ("hfield_pathadr", "npaths", None, True),
+    ("skin_matid", "nmat", None, True), ("skin_vertadr", "nskinvert", "skin_vertnum", False),
+    ("skin_texcoordadr", "nskintexvert", None, True), ("skin_faceadr", "nskinface", "skin_facenum", False),
+    ("skin_boneadr", "nskinbone", "skin_bonenum", False), ("skin_bonevertadr", "nskinbonevert", "skin_bonevertnum", False),
+    ("skin_bonebodyid", "nbody", None, False), ("skin_bonevertid", "nskinvert", None, False),
+    ("name_skinadr", "nnames", None, False), ("skin_pathadr", "npaths", None, True),
 ]
+# extents  adr + f1 * f2 * ... <= target size  checked by the validator: (start array, factor arrays, target size)
+EXTENTS = [("hfield_adr", ("hfield_nrow", "hfield_ncol"), "nhfielddata"),
+           ("tex_adr", ("tex_nchannel", "tex_height", "tex_width"), "ntexdata")]
 # references the validator does not cover (documented ids): judged by the sanitizer run only
 UNCHECKED_REFS = [("body_treeid", "ntree", None, True), ("dof_treeid", "ntree", None, False), ("mat_texid", "ntex", None, True)]
 # enum / type fields (content the specification does not interpret): (array, some out-of-range values)
@@ -163,7 +177,7 @@ def _model_lines():
     lines, slots = [], {}
     for i, (name, desc) in enumerate(MODELS.items()):
         slots[name] = i
-        lines += ["model %d" % i] + desc.split("\n") + ["end"]
+        lines += ["xmodel %d" % i] + desc.split("\n") + ["end"]
     return lines, slots
 
 
@@ -233,7 +247,28 @@ def typed_refs(p):
     for i, t in enumerate(v.get("geom_type", [])):
         if t in (7, 8):
             out.append(("geom_dataid", i, "nmesh", False))
+        elif t == 1:
+            out.append(("geom_dataid", i, "nhfield", False))
+    for i, t in enumerate(v.get("tuple_objtype", [])):
+        if t in OBJ_SIZE:
+            out.append(("tuple_objid", i, OBJ_SIZE[t], False))
     return out
+
+
+def spec_exts(p):
+    """extent records of the schema: (record for TLC, [(array, entry) of the start address, then of each factor | None])"""
+    recs = []
+    for adr, facs, tgt in EXTENTS:
+        for i in range(len(p.vals.get(adr) or [])):
+            recs.append(({"tgt": p.sidx[tgt], "adr": p.vals[adr][i], "f": [p.vals[f][i] for f in facs],
+                          "label": adr + "+" + "*".join(facs)}, [(adr, i)] + [(f, i) for f in facs]))
+    # sensor outputs: adr + dim <= nsensordata; the dimension is read off the (contiguous) pristine layout
+    sa = p.vals.get("sensor_adr") or []
+    for i in range(len(sa)):
+        dim = (sa[i + 1] if i + 1 < len(sa) else p.sval["nsensordata"]) - sa[i]
+        recs.append(({"tgt": p.sidx["nsensordata"], "adr": sa[i], "f": [dim], "label": "sensor_adr+dim"},
+                     [("sensor_adr", i), None]))
+    return recs
 
 
 def spec_refs(p):
@@ -284,10 +319,27 @@ def vclass(v, n, pristine=None):
     return "other"
 
 
-NO = dict(trunc=-1, ext=0, hdr=0, sz=[], rf=[], ty=False, fit=False, exact=False)
+NO = dict(trunc=-1, ext=0, hdr=0, sz=[], rf=[], nf=[], xf=[], ty=False, fit=False, exact=False)
 
 
-def gen_cases(p, refs, quick, rng):
+def wrap32(v):
+    """v as the signed 32-bit word a file field holds"""
+    v &= 0xFFFFFFFF
+    return v - 2 ** 32 if v >= 2 ** 31 else v
+
+
+def wrap_values(v, partners=()):
+    """high-order corruptions of a count-like 32-bit field: values whose 32-bit products / sums with the neighbouring
+    fields wrap around (0x40000000 + v, INT_MAX, 0x80000000 + v) and, for each factor p it is multiplied with, the
+    smallest value whose product with p passes 2^32 (it wraps to less than p)"""
+    out = [(0x40000000 + max(v, 0), "0x40000000+v"), (INT_MAX, "INT_MAX"), (wrap32(0x80000000 + max(v, 0)), "0x80000000+v")]
+    for q in partners:
+        if q >= 3:
+            out.append((-(-2 ** 32 // q), "wraps-with-partner"))
+    return out
+
+
+def gen_cases(p, refs, quick, rng, exts=()):
     """damaged files: list of (spec case dict, implementation patch description, kind, field, value class)"""
     cs = []
 
@@ -368,6 +420,38 @@ def gen_cases(p, refs, quick, rng):
                     continue
                 add("ref" if checked else "ref-unchecked", rec["name"], vclass(x, n), group=rec["group"],
                     patches=[("entry", arr, k0 + k, x)], rf=[{"r": ri + 1, "k": k + 1, "v": x}])
+    # lengths of ranges (the *_num / *_size partner of an *_adr array): values whose sum with the address wraps
+    for ri, (rec, arr, k0, checked) in enumerate(refs):
+        if not rec["nums"] or not checked:
+            continue
+        numarr = [nm for a, _t, nm, _o in REFS if a == arr][0]
+        have = [k for k in range(len(rec["nums"])) if rec["vals"][k] >= 0]
+        ks = sorted({have[0], have[-1]}) if have and not quick else have[-1:]
+        for k in ks:
+            v = rec["nums"][k]
+            if rec["vals"][k] < 0:
+                continue                      # no range here (address -1): nothing whose length could be damaged
+            for x, label in wrap_values(v) + [(-1, "-1"), (v + 1, "v+1")]:
+                add("num", numarr, label, group="range-table", patches=[("entry", numarr, k, x)],
+                    nf=[{"r": ri + 1, "k": k + 1, "v": x}])
+    # extents: start address and every factor, with values whose 32-bit product / sum wraps
+    for xi, (rec, locs) in enumerate(exts):
+        tgt = p.sval[p.sname[rec["tgt"] - 1]]
+        for j, loc in enumerate(locs):
+            if loc is None:
+                continue
+            v = rec["adr"] if j == 0 else rec["f"][j - 1]
+            others = [f for q, f in enumerate(rec["f"], 1) if q != j]
+            vals = wrap_values(v, others if j else ()) + [(-1, "-1"), (v + 1, "v+1")]
+            if j == 0:
+                vals += [(tgt, "=n"), (tgt + 1, ">n")]
+            if not quick:
+                vals += [(0x20000000 + max(v, 0), "0x20000000+v"), (0, "0"), (2 * v + 1, "2v+1")]
+            for x, label in vals:
+                if x == v:
+                    continue
+                add("extent", loc[0], label, group=rec["label"], patches=[("entry", loc[0], loc[1], x)],
+                    xf=[{"x": xi + 1, "j": j, "v": x}])
     # enum / type fields and raw content the specification does not interpret
     for arr, values in TYPE_FIELDS:
         if not p.vals.get(arr):
@@ -382,7 +466,7 @@ def gen_cases(p, refs, quick, rng):
     return cs
 
 
-def world_json(p, refs, cases):
+def world_json(p, refs, cases, exts=()):
     args = p.sname[:p.sname.index(MAKE_ARGS_END)]
 
     def cls(n):
@@ -393,14 +477,15 @@ def world_json(p, refs, cases):
         "sizes": [{"name": n, "val": v, "cls": cls(n)} for n, v in p.sizes], "pvals": [v for _n, v in p.sizes],
         "arrays": [{"el": a[1], "rows": p.sidx[a[2]], "cc": a[3], "cv": p.sidx[a[4]] if a[4] else 0} for a in p.arrays],
         "refs": [{"tgt": r[0]["tgt"], "opt": r[0]["opt"], "vals": r[0]["vals"], "nums": r[0]["nums"]} for r in refs],
+        "exts": [{"tgt": e[0]["tgt"], "adr": e[0]["adr"], "f": e[0]["f"]} for e in exts],
         "cases": [c["spec"] for c in cases],
     }
 
 
-def tlc_real(ctx, p, refs, cases, tmp):
+def tlc_real(ctx, p, refs, cases, tmp, exts=()):
     wf = os.path.join(tmp, "world_%s.json" % p.name)
     with open(wf, "w") as f:
-        json.dump(world_json(p, refs, cases), f)
+        json.dump(world_json(p, refs, cases, exts), f)
     res = tlc.run(os.path.join(TLA, "MjbFileReal.tla"), os.path.join(TLA, "MjbFileReal.cfg"), env={"MJB_WORLD": wf},
                   timeout=2400, workers=8)
     ctx.tlc_ok(res, "MjbFileReal(%s)" % p.name)
@@ -466,11 +551,11 @@ def run_impl(exe, cmds, cwd, nmodel_cmds_prefix, symbolize=False):
 
 def _nprefix(prefix):
     # the prefix prints one line per model ("ok") and one per mjbsave
-    return sum(1 for x in prefix if x.startswith(("model ", "mjbsave ")))
+    return sum(1 for x in prefix if x.startswith(("xmodel ", "mjbsave ")))
 
 
 def run(ctx):
-    ctx.assume("pool models are built through the mjSpec API (no XML parser offline); no flex/skin/hfield/plugin-sensor models",
+    ctx.assume("pool models are built through the mjSpec API (no XML parser offline); no flex / plugin-sensor models",
                "argument sizes between 10^4 and 2^31 are not tried (they would really allocate gigabytes)",
                "when damaged sizes move the arrays the specification admits both verdicts (it does not re-interpret content)",
                "a rejection with at least one warning is admissible for every damaged file",
@@ -499,7 +584,8 @@ def run(ctx):
                       {a for a, _ in TYPE_FIELDS} |
                       {"eq_type", "eq_objtype", "eq_obj1id", "eq_obj2id", "actuator_trntype", "actuator_trnid",
                        "sensor_objtype", "sensor_objid", "sensor_reftype", "sensor_refid", "wrap_type", "wrap_objid",
-                       "geom_type", "geom_dataid"})
+                       "geom_type", "geom_dataid", "tuple_objtype", "tuple_objid", "sensor_adr"} |
+                      {a for adr, facs, _t in EXTENTS for a in (adr,) + facs})
         cmds = list(mlines)
         for name, s in slots.items():
             cmds += ["mjbsave %d" % s, "mjblayout %d" % s, "mjbroundtrip %d" % s,
@@ -545,9 +631,10 @@ def run(ctx):
             if ctx.quick and name != "rich":
                 continue                      # quick tier: damaged images of the richest model only (round trips: all)
             refs = spec_refs(p)
-            cases = gen_cases(p, refs, ctx.quick, rng)
+            exts = spec_exts(p)
+            cases = gen_cases(p, refs, ctx.quick, rng, exts)
             _dbg(name, len(cases), "cases; TLC ...")
-            outs = tlc_real(ctx, p, refs, cases, tmp)
+            outs = tlc_real(ctx, p, refs, cases, tmp, exts)
             _dbg(name, "TLC done")
             if outs[1]["res"] != {"ok"} or outs[1]["len"] != p.total:
                 raise Machinery("specification does not accept the pristine image of %s: %r (image %d bytes)"
@@ -557,7 +644,7 @@ def run(ctx):
             prefix = mlines + ["mjbsave %d" % s for s in slots.values()]
             got = {}
             for variant in ("plain", "asan"):
-                cm = [impl_cmd(p, slot, c, outs[i + 1], variant == "asan" and c["kind"] in ("ref", "ref-unchecked", "pristine"))
+                cm = [impl_cmd(p, slot, c, outs[i + 1], variant == "asan" and c["kind"] in ("ref", "ref-unchecked", "pristine", "extent", "num"))
                       for i, c in enumerate(cases)]
                 got[variant] = run_impl(exes[variant], cm, tmp, prefix)
                 _dbg(name, variant, "implementation done:", sum(1 for g in got[variant] if isinstance(g, tuple)), "dead children")
@@ -601,6 +688,15 @@ class Ctl:
         pass
 
 
+def wrap_class(vc):
+    """value classes of count-like fields, coarse enough that one arithmetic slip is one signature"""
+    if vc in ("0x40000000+v", "0x20000000+v", "INT_MAX", "wraps-with-partner"):
+        return "wraps-32-bit"
+    if vc in ("0x80000000+v", "-1"):
+        return "negative"
+    return "too-large"
+
+
 def sig_tag(c, o):
     """input class of a case for signatures: references by validator group and value class, enum fields by field,
     damaged size fields by the reason the specification gives for rejecting them (one root cause = one class;
@@ -608,9 +704,13 @@ def sig_tag(c, o):
     kind, field, vc = c["kind"], c["field"], c["vc"]
     why = "|".join(sorted(o["why"] - {"accepted"})) or "accepted"
     if kind in ("ref", "ref-unchecked"):
+        if vc == "-1":          # the validator itself tripping over an admitted -1: one array, one signature
+            return "ref:%s:%s:-1" % (c["group"], field)
         return "ref:%s:%s" % (c["group"], vc)
     if kind == "type":
         return "type:%s:%s" % (field, vc)
+    if kind in ("extent", "num"):
+        return "%s:%s:%s" % (kind, c["group"] if kind == "extent" else field, wrap_class(vc))
     if kind.startswith("size"):
         if why in ("derived-size-wrong", "validation"):
             return "size-fields:" + why
@@ -672,6 +772,23 @@ def judge(ctx, p, cases, outs, got, info, slot):
                               "model %s (%s): %s = %s is accepted by mj_loadModelBuffer (specification: %s)"
                               % (p.name, variant, field, vc, sorted(o["why"])), rpv)
                 okall = False
+            elif kind == "num" or (kind == "extent" and vc not in ("-1", "0x80000000+v")):
+                ctx.violation("accepted-out-of-bounds-%s:%s:%s" % ("range-length" if kind == "num" else "extent",
+                                                                  field if kind == "num" else c["group"], wrap_class(vc)),
+                              "model %s (%s): %s = %s (0x%08x) is accepted by mj_loadModelBuffer although the %s it "
+                              "describes does not fit its target array (specification: %s)"
+                              % (p.name, variant, field, vc, c["patches"][0][3] & 0xFFFFFFFF,
+                                 "range" if kind == "num" else "extent adr + product", sorted(o["why"])), rpv)
+                okall = False
+            elif kind == "extent":
+                # negative extents: sanitizer oracle, as for -1 references
+                if variant == "asan" and ex not in (None, "ok", "nodata"):
+                    ctx.violation("accepted-negative-extent-misbehaves:%s" % c["group"],
+                                  "model %s: %s = %s is accepted and mj_makeData/forward/step then fails: %s"
+                                  % (p.name, field, vc, short(ex)), rpv)
+                    okall = False
+                else:
+                    info["accepted_negative_extent_survives"] = info.get("accepted_negative_extent_survives", 0) + 1
             elif kind in ("ref", "ref-unchecked"):
                 # -1 in a mandatory reference / arrays outside the validator's table: sanitizer oracle
                 if variant == "asan" and ex not in (None, "ok", "nodata"):
